@@ -52,7 +52,7 @@ func classifyDeath(prop string, d death) (oracle, class, detail string, ok bool)
 			// on something else (a channel, a WaitGroup, a Cond) that the simulator cannot schedule
 			return "hang", prop + "/hang/wall-clock", "a task blocked on a primitive the scheduler does not make cooperative (channel, WaitGroup, Cond): this simulator cannot decide the run", false
 		}
-		return "hang", prop + "/hang/wall-clock", "the run made no progress for the watchdog period (a loop outside the instrumented statements)", true
+		return "hang", prop + "/hang/wall-clock", "the run made no progress for the watchdog period (a loop outside the instrumented statements)\n" + excerpt(afterFirst(st, "verif-watchdog:")), true
 	case strings.Contains(st, "WARNING: DATA RACE"):
 		cls, det, lib := classifyRace(st)
 		if !lib {
